@@ -40,7 +40,7 @@ TRANSPARENT = {
     "core::convert::AsRef::as_ref": [0], "core::borrow::Borrow::borrow": [0],
     "core::convert::From::from": [0], "core::convert::Into::into": [0], "core::clone::Clone::clone": [0],
     "alloc::borrow::ToOwned::to_owned": [0],
-    "core::ops::try_trait::Try::branch": [0], "core::ops::try_trait::FromResidual::from_residual": [0],
+    "core::ops::try_trait::Try::branch": [0],      # (from_residual builds the *error* return: it carries no file role)
     "core::iter::traits::collect::IntoIterator::into_iter": [0], "core::iter::traits::iterator::Iterator::next": [0],
     "core::option::Option::<T>::ok_or": [0], "core::option::Option::<T>::unwrap": [0],
     "core::result::Result::<T, E>::and_then": [0], "core::result::Result::<T, E>::map_err": [0],
@@ -223,8 +223,9 @@ class Roles:
                                 r = join(r, self.operand_role(f, o))
                         elif k == "agg" and rv.get("ak") == "adt" and rv.get("adt") in (
                                 "core::option::Option", "core::result::Result", "core::ops::control_flow::ControlFlow"):
-                            for o in rv["fields"]:
-                                r = join(r, self.operand_role(f, o))
+                            if rv.get("variant") not in ("Err", "Break"):     # an error value names no file
+                                for o in rv["fields"]:
+                                    r = join(r, self.operand_role(f, o))
                         if r != NONE:
                             if self._set(f, lhs["l"], r):
                                 changed = True
